@@ -373,6 +373,21 @@ func timeFormat(fr *frame, t value, layout value) value {
 		return ls
 	}
 	l := layout.(string)
+	// The zone verb "MST" echoes the location's zone abbreviation verbatim when it is non-empty (documented:
+	// a FixedZone's name). That name is caller-controlled data, so it is kept byte for byte (possibly symbolic).
+	if idx := strings.Index(l, "MST"); idx >= 0 {
+		if zn, symName, ok := zoneAbbrev(st); ok && (symbolic || symName) {
+			var out []value
+			if idx > 0 {
+				out = append(out, strBytes(timeFormat(fr, t, l[:idx]))...)
+			}
+			out = append(out, zn...)
+			if idx+3 < len(l) {
+				out = append(out, strBytes(timeFormat(fr, t, l[idx+3:]))...)
+			}
+			return mkStr(out)
+		}
+	}
 	if !symbolic {
 		return nativeTime(fr, st).Format(l)
 	}
@@ -411,6 +426,36 @@ func timeFormat(fr *frame, t value, layout value) value {
 		out[i] = p.tokByte(tk, digit, [2]byte{'A', 'Z'}, [2]byte{'a', 'z'}, [2]byte{':', ':'}, [2]byte{'+', '+'}, [2]byte{'-', '.'}, [2]byte{' ', ' '})
 	}
 	return mkStr(out)
+}
+
+// zoneAbbrev returns the abbreviation a fixed-zone location prints for the MST verb.
+func zoneAbbrev(st structure) (name []value, symbolic bool, ok bool) {
+	loc, _ := st[2].(*value)
+	if loc == nil {
+		return nil, false, false
+	}
+	ls, _ := (*loc).(structure)
+	if len(ls) < 2 {
+		return nil, false, false
+	}
+	zones, _ := ls[1].([]value)
+	if len(zones) != 1 {
+		return nil, false, false
+	}
+	z := zones[0].(structure)
+	switch n := z[0].(type) {
+	case string:
+		if n == "" {
+			return nil, false, false
+		}
+		return strBytes(n), false, true
+	case symstr:
+		if len(n) == 0 {
+			return nil, false, false
+		}
+		return strBytes(n), true, true
+	}
+	return nil, false, false
 }
 
 func literalSafeByte(c byte) bool {
@@ -453,11 +498,14 @@ func nativeTime(fr *frame, st structure) time.Time {
 		return tt.UTC()
 	}
 	ls := (*loc).(structure)
-	name, _ := ls[0].(string)
+	name, isStr := ls[0].(string)
+	if !isStr {
+		name = "ZONE" // symbolic name: only the offset matters to the caller (the name is spliced in separately)
+	}
 	switch {
-	case name == "UTC" || name == "":
+	case isStr && (name == "UTC" || name == ""):
 		return tt.UTC()
-	case name == "Local":
+	case isStr && name == "Local":
 		return tt.UTC() // the modelled Local zone is UTC
 	}
 	// fixed zone: first zone entry's offset
